@@ -342,4 +342,25 @@ def runOps (c : Cfg) : St → List Op → St × Res
     match apply c st op with
     | (st', r) => if r.fatal then (st', r) else runOps c st' ops
 
+/-! ### several connections in one process -/
+
+/-- every connection has its own builder, memory manager and (on its node) unit module: an
+operation on connection `i` acts on the i-th component only -/
+def applyJ (cs : Cfg × Cfg) (s : St × St) (e : Bool × Op) : St × St :=
+  if e.1 then (s.1, (apply cs.2 s.2 e.2).1) else ((apply cs.1 s.1 e.2).1, s.2)
+
+def runJ (cs : Cfg × Cfg) : St × St → List (Bool × Op) → St × St
+  | s, [] => s
+  | s, e :: es => runJ cs (applyJ cs s e) es
+
+/-- the operations of one connection, in order -/
+def projOps (i : Bool) : List (Bool × Op) → List Op
+  | [] => []
+  | e :: es => if e.1 == i then e.2 :: projOps i es else projOps i es
+
+/-- a history of one connection without stopping at errors -/
+def foldOps (c : Cfg) : St → List Op → St
+  | st, [] => st
+  | st, op :: ops => foldOps c (apply c st op).1 ops
+
 end NQ.QM
